@@ -86,6 +86,8 @@ type Interp struct {
 	cover        map[*ssa.BasicBlock]bool
 	coverFns     map[*ssa.Function]bool
 	mapReverse   bool
+	mapAlternate bool // every other map iteration of a path runs in reverse insertion order (C09: order must not show)
+	mapRanges    int
 	calledFns    map[*ssa.Function]bool
 	rtypeT       *types.Named
 	onceDone     map[*Value]bool
@@ -706,6 +708,15 @@ func (i *Interp) redirectFrom(caller *ssa.Function) bool {
 	}
 	n := caller.Name()
 	return !strings.HasPrefix(n, "vxstub_") && !strings.HasPrefix(n, "H_") && !strings.HasPrefix(n, "vx")
+}
+
+// nextMapOrder decides the direction of the next map iteration.
+func (i *Interp) nextMapOrder() bool {
+	if i.mapAlternate {
+		i.mapRanges++
+		return i.mapRanges%2 == 0
+	}
+	return i.mapReverse
 }
 
 func sameSSAValue(a, b ssa.Value) bool {
